@@ -17,6 +17,7 @@ pub static PROP: Prop = Prop {
     rule: "generated lax open hypergraphs with a list of unification pairs (self pairs, repeats, chains, pairs across label boundaries; half of the cases label-consistent by construction), followed by 1-3 rounds of [more unifications, optionally a new node/edge, quotient]; every quotient call is compared with a reference union-find and the diagram is inspected before and after; non-trivial = at least one pair joining two distinct nodes (failing quotients counted as a class); distinct = hash of the initial diagram and the history",
     assumptions: &["on Err nothing is demanded of the returned map, only that the diagram is unchanged"],
     fixed: Some(fixed),
+    scale: Some(super::scale::c09),
 };
 
 /// one quotient call on the open hypergraph, fully checked
